@@ -42,6 +42,11 @@ func probeDesign() *m.Design {
 	d.Types = append(d.Types, &m.UserType{Name: "Pair", Var: "v3", Result: true, Identifier: "application/vnd.pair",
 		Attr:  rt.Obj(rt.Fld("id", m.Prim(m.Int64), true), rt.Fld("title", m.Prim(m.String), true)),
 		Views: []*m.View{{Name: "default", Fields: []m.ViewField{{Name: "id"}, {Name: "title"}}}, {Name: "tiny", Fields: []m.ViewField{{Name: "id"}}}}})
+	dvTrue := value.Bool(true)
+	d.Types = append(d.Types, &m.UserType{Name: "Entry", Var: "v4", Result: true, Identifier: "application/vnd.entry",
+		Attr:  rt.Obj(rt.Fld("id", m.Prim(m.Int64), true), rt.Fld("label", &m.Attr{Type: &m.Type{Kind: m.Boolean}, Default: &dvTrue}, false)),
+		Views: []*m.View{{Name: "default", Fields: []m.ViewField{{Name: "id"}, {Name: "label"}}}}})
+	add("rtdefault", m.UserRef("Entry"))
 	s.Methods = append(s.Methods, &m.Method{Name: "bview", Streaming: "bidirectional", StreamingPayload: m.Prim(m.String), Result: m.UserRef("Pair"), HTTP: &m.HTTPEndpoint{Routes: []m.Route{{Verb: "GET", Path: "/bview"}}}})
 	s.Methods = append(s.Methods, &m.Method{Name: "ticks", Streaming: "result", Result: m.Prim(m.Int64), HTTP: &m.HTTPEndpoint{Routes: []m.Route{{Verb: "GET", Path: "/ticks"}}}})
 	d.Services = []*m.Service{s}
@@ -99,6 +104,10 @@ func TestProbes(t *testing.T) {
 		}
 		clean := o.ClientStream != nil && len(o.ClientStream.Received) == 1
 		return !clean, "bidirectional stream, SetView(\"tiny\"), Recv before Send: client " + got
+	})
+	rt.Probe("C03-result-type-unset-default-not-applied", func() (bool, string) {
+		o := call("rtdefault", value.Object(value.Field{N: "id", V: value.Int(1)}))
+		return o.ClientErr != nil || !strings.Contains(strings.ToLower(o.Result.Canon()), "label:true"), "result type attribute label (Boolean, Default(true)) left unset by the service: client got " + o.Result.Canon() + errText(o)
 	})
 	rt.Probe("C03-response-header-array-not-split", func() (bool, string) {
 		o := call("hdrarray", value.Object(value.Field{N: "l", V: value.Array(value.Int(1), value.Int(2))}))
